@@ -61,29 +61,25 @@ def _plan(tier):
                 })
 
     if tier == "quick":
+        # small tier (budget ~5 CPU-minutes including TF / JAX start-up): d <= 2, lock-step
+        # depth 2 at d = 1 and depth 1 at d = 2, whole-program compilation of the depth-<=1
+        # programs at d = 1 and of the root programs at d = 2
         for group in ("tf", "jax"):
-            jit1 = 1 if group == "jax" else -1
-            for c in (1, 2, 3, 4, 5):
-                bfs("purefock", 1, c, ["sup"], group, 2, jit1 if c in (2, 4) else -1)
-            bfs("purefock", 1, 3, ["num"], group, 1, -1)
-            bfs("purefock", 2, 3, ["sup"], group, 2, jit1, nchunks=4)
-            bfs("purefock", 2, 3, ["num"], group, 1, -1)
-            for c in (1, 2):
-                bfs("purefock", 2, c, ["sup"], group, 1, -1)
-        bfs("purefock", 1, 3, ["sup"], "tf", 0, -1, wdepth=1)
-        bfs("gaussian", 1, 3, ["dsq", "thermal"], "jax", 2, 1)
-        bfs("gaussian", 2, 3, ["dsq"], "jax", 2, 1, nchunks=4)
-        bfs("gaussian", 2, 3, ["thermal"], "jax", 1, 1)
-        bfs("passive", 1, 3, ["sup"], "jax", 2, 1)
-        bfs("passive", 2, 3, ["num", "sup"], "jax", 2, 1, nchunks=2)
-        bfs("fgauss", 2, 3, ["num", "ph"], "jax", 2, 1)
-        bfs("ffock", 2, 3, ["num", "sup"], "jax", 2, 1)
+            for c in (1, 3):
+                bfs("purefock", 1, c, ["sup"], group, 2, 1 if (group == "jax" and c == 3) else -1)
+            bfs("purefock", 2, 3, ["sup"], group, 1, -1)
+        bfs("gaussian", 1, 3, ["dsq"], "jax", 2, -1)
+        bfs("gaussian", 2, 3, ["dsq"], "jax", 1, 0)
+        bfs("passive", 2, 3, ["sup"], "jax", 1, 0)
+        bfs("fgauss", 2, 3, ["ph"], "jax", 1, 0)
+        bfs("ffock", 2, 3, ["sup"], "jax", 1, 0)
     else:
         for group in ("tf", "jax"):
             cd = 2 if group == "jax" else -1
             for c in (1, 2, 3, 4, 5):
                 bfs("purefock", 1, c, ["vac", "num", "sup"], group, 3, cd)
-            bfs("purefock", 2, 3, ["vac", "num", "sup"], group, 2, cd, nchunks=8)
+            bfs("purefock", 2, 3, ["sup"], group, 2, cd, nchunks=8)
+            bfs("purefock", 2, 3, ["vac", "num"], group, 2, min(cd, 1), nchunks=4)
             bfs("purefock", 2, 3, ["sup"], group, 3, -1, nchunks=20)
             for c in (1, 2, 4, 5):
                 bfs("purefock", 2, c, ["num", "sup"], group, 2, 1 if group == "jax" else -1, nchunks=4)
@@ -93,7 +89,8 @@ def _plan(tier):
         bfs("purefock", 1, 3, ["sup"], "tf", 0, -1, wdepth=2)
         bfs("purefock", 2, 3, ["sup"], "tf", 0, -1, wdepth=1, nchunks=4)
         bfs("gaussian", 1, 3, ["vac", "dsq", "thermal"], "jax", 2, 2)
-        bfs("gaussian", 2, 3, ["dsq", "thermal"], "jax", 2, 2, nchunks=12)
+        bfs("gaussian", 2, 3, ["dsq"], "jax", 2, 2, nchunks=12)
+        bfs("gaussian", 2, 3, ["thermal"], "jax", 2, 1, nchunks=4)
         bfs("gaussian", 2, 4, ["vac"], "jax", 2, 1, nchunks=4)
         bfs("gaussian", 3, 3, ["dsq", "thermal"], "jax", 2, 1, nchunks=12)
         bfs("passive", 1, 3, ["num", "sup"], "jax", 2, 2)
@@ -108,6 +105,8 @@ def _plan(tier):
     # connector in the same item (a compiled variant only reports what eager did not)
     for fam in ("tf", "jax"):
         for part in ("decomp", "funm", "assembly", "kernels"):
+            if tier == "quick" and (part == "assembly" or (fam == "tf" and part == "kernels")):
+                continue
             items.append({"kind": "linalg", "connector_family": fam, "part": part})
     return items
 
@@ -169,8 +168,9 @@ def run(ctx, builddir):
     subs = []
     threads = []
     total = 16
-    n_tf = min(len(tf_items), 6 if ctx.tier == "quick" else 7)
-    for its, procs in ((tf_items, n_tf), (jax_items, max(1, total - n_tf))):
+    n_tf = min(len(tf_items), 2 if ctx.tier == "quick" else 7)
+    n_jax = 3 if ctx.tier == "quick" else max(1, total - n_tf)
+    for its, procs in ((tf_items, n_tf), (jax_items, n_jax)):
         if not its:
             continue
         sub = core.Check(ctx.prop, ctx.tier, ctx.seed, ctx.level)
@@ -744,8 +744,8 @@ def _work_linalg(ctx, item, only=None):
     eager_modeless = set()
     for kind in LINALG_KINDS[fam]:
         compiled = kind != LINALG_KINDS[fam][0]
-        if compiled and (part == "assembly" or (ctx.tier == "quick" and part != "decomp")):
-            continue  # quick tier: compiled variants of the decompositions only
+        if compiled and (part == "assembly" or ctx.tier == "quick"):
+            continue  # quick tier: eager connector functions only
         if kind == "tffn" and part == "kernels":
             continue  # every TF kernel entry point raises NotImplementedError (counted under "tf")
         if only is not None and only[0] != kind:
